@@ -210,9 +210,9 @@ Proof.
   - intros s Hs. unfold no_recovery in Hnr. rewrite forallb_forall in Hnr.
     assert (Hin : In s states) by (apply in_seq; lia).
     specialize (Hnr s Hin). apply andb_prop in Hnr. destruct Hnr as [Hnr _].
-    apply andb_prop in Hnr. destruct Hnr as [H1 H2]. split.
+    apply andb_prop in Hnr. destruct Hnr as [Hn1 Hn2]. split.
     + destruct (can_recover s) as [[|]|]; try discriminate. reflexivity.
-    + apply action_eqb_eq in H2. exact H2.
+    + apply action_eqb_eq in Hn2. exact Hn2.
   - destruct (preds 0); [reflexivity|discriminate].
   - intros s t Hs Ht. unfold cells_ok in Hcells. rewrite forallb_forall in Hcells.
     assert (Hin : In s states) by (apply in_seq; lia). specialize (Hcells s Hin).
